@@ -4,6 +4,7 @@ branches, and a (parallel) depth-first explorer by re-execution.
 
 Nothing here knows about placement.
 """
+import fractions
 import math
 import os
 import sys
@@ -127,6 +128,7 @@ class PathCtx:
         self.nq = 0
         self.tq = 0.0
         self.unknown_forks = 0
+        self.concretisations = 0
         self.unknown_queries = 0
         self.notes = []
         self.vars = {}           # name -> z3 const, for model printing
@@ -498,13 +500,55 @@ class SymNum(Sym):
         return fork(self.z != 0)
 
     def _concretise(self, what):
-        raise ConcretisationRequired('%s of %s' % (what, self.z))
+        """The code needs a machine number (string formatting with %d,
+        range(), C-level conversions).  Concolic-style: take the value of a
+        model of the path condition, *add the equation to the path
+        condition* (sound: the path now stands for fewer inputs) and count
+        the event; the evidence reports the total, which is 0 on the
+        unchanged tree."""
+        ctx = PathCtx.cur
+        if ctx is None or getattr(ctx, 'concrete', False):
+            raise ConcretisationRequired('%s of %s' % (what, self.z))
+        if ctx.check() != 'sat':
+            raise ConcretisationRequired('%s of %s (no model)' % (
+                what, self.z))
+        v = ctx.last_model.eval(self.z, model_completion=True)
+        ctx.assume(self.z == v)
+        ctx.concretisations += 1
+        if z3.is_int_value(v):
+            return v.as_long()
+        if z3.is_rational_value(v):
+            return fractions.Fraction(v.numerator_as_long(),
+                                      v.denominator_as_long())
+        raise ConcretisationRequired('%s of %s (value %s)' % (
+            what, self.z, v))
 
-    def __int__(self): self._concretise('int()')
-    def __index__(self): self._concretise('index')
-    def __float__(self): self._concretise('float()')
-    def __round__(self, n=None): self._concretise('round()')
-    def __trunc__(self): self._concretise('trunc()')
+    def __int__(self):
+        return int(self._concretise('int()'))
+
+    def __index__(self):
+        v = self._concretise('index')
+        if isinstance(v, fractions.Fraction) and v.denominator != 1:
+            raise TypeError('symbolic real used as an index')
+        return int(v)
+
+    def __float__(self):
+        return float(self._concretise('float()'))
+
+    def __trunc__(self):
+        return int(self._concretise('trunc()'))
+
+    def __round__(self, n=None):
+        """round() to an integer: half to even, as Python does"""
+        if n is not None:
+            return round(float(self._concretise('round(x, n)')), n)
+        if self.z.sort() == z3.IntSort():
+            return self
+        f = z3.ToInt(self.z)                     # floor
+        d = self.z - z3.ToReal(f)
+        half = z3.RealVal('1/2')
+        return SymNum(f + z3.If(d > half, 1, z3.If(
+            d < half, 0, z3.If(f % 2 == 0, 0, 1))))
 
     def __repr__(self):
         return '<sym %s>' % z3.simplify(self.z).sexpr()[:40]
@@ -578,7 +622,8 @@ def ite(c, a, b):
 class PathResult:
     """What a worker sends back for one path (must be picklable)."""
     __slots__ = ('prefix', 'outcome', 'violations', 'info', 'error',
-                 'nq', 'tq', 'unknown_forks', 'unknown_queries', 'ndec')
+                 'nq', 'tq', 'unknown_forks', 'unknown_queries', 'ndec',
+                 'concretisations')
 
 
 def run_one(path_fn, prefix):
@@ -610,6 +655,7 @@ def run_one(path_fn, prefix):
     res.prefix = [d[0] for d in ctx.decisions]
     res.nq, res.tq = ctx.nq, ctx.tq
     res.unknown_forks = ctx.unknown_forks
+    res.concretisations = ctx.concretisations
     res.unknown_queries = ctx.unknown_queries
     res.ndec = len(ctx.decisions)
     alts = []
@@ -650,6 +696,7 @@ def explore(path_fn, workers=None, max_paths=200000, time_budget=None,
     pending = [[]]
     stats = dict(paths=0, infeasible=0, queries=0, solver_s=0.0,
                  unknown_forks=0, unknown_queries=0, decisions=0,
+                 concretisations=0,
                  complete=True, errors=0)
 
     def account(rs):
@@ -664,6 +711,7 @@ def explore(path_fn, workers=None, max_paths=200000, time_budget=None,
             stats['queries'] += r.nq
             stats['solver_s'] += r.tq
             stats['unknown_forks'] += r.unknown_forks
+            stats['concretisations'] += getattr(r, 'concretisations', 0)
             stats['unknown_queries'] += r.unknown_queries
             stats['decisions'] += r.ndec
 
@@ -680,6 +728,10 @@ def explore(path_fn, workers=None, max_paths=200000, time_budget=None,
 
     # warm up sequentially so that there is a frontier to distribute
     while pending and len(pending) < workers * 2 and stats['paths'] < 8:
+        if time.time() > deadline:
+            stats['complete'] = False
+            stats['wall_s'] = time.time() - t0
+            return results, stats
         rs, left = _subtree((pending.pop(), 1, deadline))
         account(rs)
         pending.extend(left)
